@@ -31,6 +31,11 @@ def check(run, model, tier):
     run.rule('HSM-CURSOR.I1', 'temp.fun == state.fun at every normal exit')
     ba, res = hsmrules.record_buffer_obligations(run, model, 'dispatch')
     run.floor('buffer obligations in dispatch+trans_', len(res), 12)
+    run.rule('HSM-CONTENT.O4-content', 'an ancestor of the target stored into slot i of the path buffer is its i-th ancestor (ghost depth d == i)')
+    run.rule('HSM-CONTENT.O5-content', 'ENTRY is sent only through slots at or below the content frontier K (slots 0..K hold the 0..K-th ancestors of the target)')
+    cc = hsmrules.record_content_obligations(run, model, 'dispatch', cursor_at_entry=False)
+    run.floor('content store obligations in dispatch+trans_', cc['O4-content'], 5)
+    run.floor('content entry obligations in dispatch', cc['O5-content'], 2)
     n = hsmrules.entry_loops(run, model, 'dispatch')
     run.floor('entry loops in dispatch', n, 2)
     hsmrules.lca_match_rule(run, model)
